@@ -353,6 +353,9 @@ fn strategy(rng: &mut Rng, targeted_bias: bool) -> Strategy {
 
 /// The configuration of run number `index` of a check: a pure function of (prop, base seed, index).
 pub fn generate(prop: &str, base_seed: u64, index: u64) -> RunCfg {
+    if prop == "C16" {
+        return generate_c16(base_seed, index, C16_SCHEDULES_PER_POINT);
+    }
     let o = opts_for(prop);
     generate_with(prop, &o, base_seed, index)
 }
@@ -434,6 +437,7 @@ pub fn generate_with(prop: &str, o: &GenOpts, base_seed: u64, index: u64) -> Run
         kind,
         len,
         start,
+        range_end: None,
         hint,
         heap_bytes,
         pre,
@@ -446,4 +450,164 @@ pub fn generate_with(prop: &str, o: &GenOpts, base_seed: u64, index: u64) -> Run
 
 pub fn prop_code(prop: &str) -> u64 {
     prop.bytes().fold(7u64, |a, b| a.wrapping_mul(131).wrapping_add(b as u64))
+}
+
+// ---------------------------------------------------------------------------------------------
+// C16: the boundary grid (enumerated completely; only the schedules are sampled)
+
+const M: usize = usize::MAX;
+/// sampled two-thread schedules per grid point and pass (plus one sequential run)
+pub const C16_SCHEDULES_PER_POINT: u64 = 4;
+pub const RANGE_BOUNDS: [usize; 9] = [0, 1, 7, M / 2 - 1, M / 2, M / 2 + 1, M - 7, M - 1, M];
+pub const SMALL_LENS: [usize; 4] = [0, 1, 3, 5];
+
+#[derive(Clone, Copy, Debug)]
+enum First {
+    Chunk(usize),
+    Buf(usize),
+    ForEach0,
+    EnumForEach0,
+    Fold0,
+}
+
+fn chunk_sizes(len: usize) -> Vec<usize> {
+    let mut v = vec![
+        0,
+        1,
+        len.saturating_sub(1),
+        len,
+        len.saturating_add(1),
+        M / 2,
+        M - 7,
+        M,
+    ];
+    v.sort();
+    v.dedup();
+    v
+}
+
+/// All grid points: (kind, start, end-or-len, first operation, skip in the tail?, terminal)
+fn c16_sources() -> Vec<(Kind, usize, usize)> {
+    let mut v = Vec::new();
+    for &s in &RANGE_BOUNDS {
+        for &e in &RANGE_BOUNDS {
+            v.push((Kind::Range, s, e));
+            v.push((Kind::RangeRef, s, e));
+        }
+    }
+    for k in Kind::ALL {
+        if k.is_range() {
+            continue;
+        }
+        for &l in &SMALL_LENS {
+            v.push((k, 0, l));
+        }
+    }
+    v
+}
+
+pub fn c16_grid_size() -> u64 {
+    let mut n = 0u64;
+    for (k, s, e) in c16_sources() {
+        let len = if k.is_range() { e.saturating_sub(s) } else { e };
+        n += (chunk_sizes(len).len() as u64 * 2 + 3) * 4;
+    }
+    n
+}
+
+pub fn generate_c16(base_seed: u64, index: u64, schedules_per_point: u64) -> RunCfg {
+    let per = schedules_per_point + 1;
+    let point = index / per;
+    let sched = index % per; // 0 = sequential
+    let g = c16_grid_size();
+    let mut p = point % g;
+    // locate the grid point
+    let mut chosen = None;
+    for (k, s, e) in c16_sources() {
+        let len = if k.is_range() { e.saturating_sub(s) } else { e };
+        let cs = chunk_sizes(len);
+        let firsts = cs.len() as u64 * 2 + 3;
+        let here = firsts * 4;
+        if p < here {
+            let fi = p / 4;
+            let tail = p % 4;
+            let first = if fi < cs.len() as u64 {
+                First::Chunk(cs[fi as usize])
+            } else if fi < 2 * cs.len() as u64 {
+                First::Buf(cs[(fi - cs.len() as u64) as usize])
+            } else {
+                match fi - 2 * cs.len() as u64 {
+                    0 => First::ForEach0,
+                    1 => First::EnumForEach0,
+                    _ => First::Fold0,
+                }
+            };
+            chosen = Some((k, s, e, len, first, tail));
+            break;
+        }
+        p -= here;
+    }
+    let (kind, start, e, len, first, tail) = chosen.expect("grid point");
+    let run_seed = mix(&[base_seed, index, prop_code("C16")]);
+    let mut rng = Rng::new(run_seed);
+    let with_skip = tail & 1 == 1;
+    let into_seq = tail & 2 == 2;
+    let first_ops: Vec<Op> = match first {
+        First::Chunk(n) => vec![Op::Chunk(n, 2)],
+        First::Buf(n) => {
+            // wrapped iterators allocate chunk_size slots by documentation: sizes <= 4096 there
+            let n = if kind.is_iter() { n.min(4096) } else { n };
+            vec![Op::BufNew(n), Op::BufNext(2), Op::BufDrop]
+        }
+        First::ForEach0 => vec![Op::ForEach(0)],
+        First::EnumForEach0 => vec![Op::EnumForEach(0)],
+        First::Fold0 => vec![Op::Fold(0)],
+    };
+    let mut tail_a = vec![Op::Next, Op::Len, Op::NextIdVal];
+    let mut tail_b = vec![
+        Op::Chunk(2, usize::MAX),
+        Op::BufNew(2),
+        Op::BufNext(usize::MAX),
+        Op::BufDrop,
+        Op::HasMore,
+    ];
+    if with_skip {
+        tail_b.push(Op::Skip);
+        tail_b.push(Op::HasMore);
+    }
+    tail_a.push(Op::Next);
+    tail_b.push(Op::NextIdVal);
+    let (pre, threads) = if sched == 0 {
+        let mut all = first_ops.clone();
+        all.extend(tail_a.iter().cloned());
+        all.extend(tail_b.iter().cloned());
+        (all, vec![])
+    } else {
+        let mut a = first_ops.clone();
+        a.extend(tail_a.iter().cloned());
+        (vec![], vec![a, tail_b])
+    };
+    let nthreads = threads.len();
+    let mut sim = SimCfg::simple(nthreads, mix(&[run_seed, 0x5eed]));
+    sim.strategy = strategy(&mut rng, false);
+    sim.step_cap = 60_000;
+    RunCfg {
+        prop: "C16".to_string(),
+        run_seed,
+        kind,
+        len,
+        start,
+        range_end: if kind.is_range() { Some(e) } else { None },
+        hint: *rng.pick(&[Hint::Exact, Hint::Inexact, Hint::Unbounded]),
+        heap_bytes: 0,
+        pre,
+        threads,
+        terminal: if into_seq {
+            Terminal::IntoSeq(3)
+        } else {
+            Terminal::Drop
+        },
+        panic: None,
+        sim,
+    }
 }
